@@ -30,6 +30,7 @@ FLOORS = {"key_sites": 6}
 EXPLANATION += " b (added): inside the maintenance loops of insert and create_index the only condition on filing a fact under a field's index is `fact.get(field)` being Some, unfiltered - the same condition under which the linear scan can match it."
 EXPLANATION += ' c (added): no pointer-to-integer cast in the keyed shortcuts (a key must be a function of content, not of an address). b: the position filed by insert is `facts.len()` read before the push, whatever the variable is called.'
 EXPLANATION += ' b (added): no binary search / partition_point over index buckets (they are filled by push in arrival order of caller-supplied positions, not kept sorted).'
+EXPLANATION += ' d (added): find_candidates does not branch on the separately kept rule counter (rule_count / is_empty()).'
 
 AMI = "rete::alpha_memory_index::AlphaMemoryIndex"
 BMI = "rete::optimization::BetaMemoryIndex"
@@ -391,6 +392,13 @@ def _conclusions(P, R):
     else:
         R.violate("d", "add_rule:mapping", "add_rule does not file every conclusion under the rule's name", ar)
     fc = P.one(CI + "::find_candidates")
+    # the lookup answers from the two maps only: a shortcut on a separately maintained counter (`if self.rule_count == 0`, is_empty())
+    # makes the answer depend on bookkeeping that can drift from the maps (a remove of an unknown name decrements it)
+    for g_ in [x for b_ in fc.normal_blocks() for x in A.guards_of(fc, b_)]:
+        t_ = fmt_sym(g_["cond"], maxdepth=8)
+        if "rule_count" in t_ or "ConclusionIndex::is_empty(" in t_ or "ConclusionIndex::len(" in t_:
+            R.violate("d", "find:counter-shortcut", "find_candidates takes a path that depends on the index's rule counter (`%s`): the counter is kept apart from the maps (remove_rule of a name that is not indexed still changes it), so the shortcut can answer `no candidates` while rules assigning the field are indexed" % t_[:80], fc, fc.term(g_["sw"])[0])
+            break
     direct = [c for (c, s) in A.calls_with_receiver_field(fc, "field_to_rules", CI) if c.name.endswith("HashMap::get")]
     ext = [c for c in fc.calls() if c.dname == "std::iter::Extend::extend" and c.bb in fc.normal_blocks()]
     prefix = [c for c in fc.calls() if c.name.endswith("str>::starts_with") or c.name.endswith("::starts_with")]
